@@ -17,3 +17,38 @@ META["C19"] = dict(
     level_text="Randomised exploration of Get/Put histories (incl. foreign Puts of arbitrary capacity) against an ownership and capacity model, plus an exhaustive differential of the power-of-two helpers below 2^20; this is search, not proof: it shows the absence of violations on the explored histories only.",
     level_note="Trusts sync.Pool semantics, backing-array identity as buffer identity, GOMAXPROCS(1) for deterministic hand-over.",
 )
+
+
+def _m(engine, ref, technique, text, note):
+    return dict(engine=engine, design_ref=ref, technique=technique, level_text=text, level_note=note)
+
+_SCHED_NOTE = ("Trusts the cooperative scheduler (one task at a time, yields at verifPoint hooks and mock transport/executor calls), "
+               "the mock transport and the call-id stream parser; interleavings finer than the yield points are not explored.")
+ENGINES += [
+    {"name": "sched", "path": "harness/sched", "serves_properties": ["C01", "C02", "C05", "C06", "C09", "C10", "C11", "C18"],
+     "kind_free_text": "cooperative scheduler whose schedule is generated data (preemption-bounded search, directed prefixes, fairness rule)"},
+    {"name": "mock", "path": "harness/mock", "serves_properties": ["*"],
+     "kind_free_text": "recording mock transport (buffering, faults, scripted inbound stream), executors (scheduler tasks, inline/deferred), recording handler contexts"},
+    {"name": "wire", "path": "harness/wire", "serves_properties": ["C04", "C08", "C16"],
+     "kind_free_text": "independent reference framers/deframers, fragmenting reader, message flattening"},
+]
+META["C01"] = _m("sched", "DESIGN.md section 4, C01", "property-based testing: rapid-generated schedules and writer programs on a cooperative scheduler; oracle = transport byte stream parsed against accepted calls",
+    "Generated-schedule exploration of writer/sender interleavings at hook-point granularity with an order/intactness oracle on the transport stream; search, not proof.", _SCHED_NOTE)
+META["C02"] = _m("sched", "DESIGN.md section 4, C02", "property-based testing: generated schedules with directed prefixes into the sender's release window; stuck-state oracle under a harness-owned executor",
+    "Exploration of the lost-wake-up window: the terminal state of a controlled execution decides 'eventually sent and flushed' exactly for that execution; search, not proof.", _SCHED_NOTE)
+META["C10"] = _m("sched", "DESIGN.md section 4, C10", "property-based testing: generated schedules with buffer poisoning after every call and concurrent pool users; oracle = bytes at the transport equal the call-time snapshot",
+    "Exploration of buffer-reuse/pool-recycling interleavings with a content oracle; search, not proof.", _SCHED_NOTE + " GOMAXPROCS(1) makes sync.Pool hand-over deterministic.")
+META["C06"] = _m("sched", "DESIGN.md section 4, C06", "property-based testing: generated schedules placing Close inside every sender window; oracle over the transport event order",
+    "Exploration of Close-vs-sender interleavings (incl. the release/re-acquire window) with an accepted-before-Close => flushed-before-transport-Close oracle; search, not proof.", _SCHED_NOTE + " Close's poll sleep is real time, so such cases are budgeted by count.")
+META["C11"] = _m("sched", "DESIGN.md section 4, C11", "property-based testing: generated matrix of entry point x channel kind x close source/argument x caller context, writer enabled only after Close returned",
+    "Exploration of every write entry point after every way a channel gets closed, repeated per case because select outcomes are runtime choices; search, not proof.", _SCHED_NOTE)
+META["C04"] = _m("wire", "DESIGN.md section 4, C04", "property-based testing: generated codec configurations, boundary payloads and fragmentations; round-trip plus differential against independent reference framers",
+    "Randomised round-trip/differential testing of all frame codecs at the codec layer and through a real channel; search, not proof.", "Trusts the reference framers (written from the parameter documentation) and the fragmenting reader.")
+META["C08"] = _m("wire", "DESIGN.md section 4, C08", "property-based testing / structured-adversarial stream generation with end-of-stream cut points; differential against reference decoders with completeness, bound and progress invariants",
+    "Fault-enumeration flavoured search: hostile headers, over-long varints, missing delimiters and every class of stream end are generated per decoder and judged call by call; sampled, not exhaustive.", "Trusts the reference decoders and the byte accounting of the fragmenting reader.")
+META["C14"] = _m("mock", "DESIGN.md section 4, C14", "property-based testing: generated carriers, sizes and reader behaviours through the real head handler on sync and queued channels; helper functions against io.ReadAll-style references",
+    "Randomised byte-exactness testing over 19 supported carrier shapes and 6 unsupported types, with inline and deferred sender executors; search, not proof.", "Trusts the mock transport's stream recording.")
+META["C16"] = _m("wire", "DESIGN.md section 4, C16", "property-based testing: generated strings and JSON trees (round trip with exact number comparison), generated malformed frames, differential against encoding/json",
+    "Randomised round-trip and rejection testing of the text and JSON codecs at codec layer and through a channel with a frame codec underneath; search, not proof.", "Trusts encoding/json as the definition of a complete valid JSON object.")
+META["C17"] = _m("core", "DESIGN.md section 4, C17", "property-based testing: rapid state-machine style operation sequences against a byte-string model over an in-memory net.Conn",
+    "Model-based random testing of the four transport wrapper variants; search, not proof.", "Trusts the in-memory net.Conn.")
